@@ -123,3 +123,12 @@ def scenario_decide(atom):
             r = test
         return ev(r)
     return decide
+
+
+def implied2(conds, pos, neg):
+    """a fact that may be tested in either polarity: pos(test) recognises the fact, neg(test) its negation"""
+    a = implied(conds, pos)
+    if a is not None:
+        return a
+    b = implied(conds, neg)
+    return None if b is None else not b
